@@ -59,6 +59,9 @@ macro_rules! map_route {
     }};
 }
 
+// (path-scoped re-export so that surface.rs can use the same forms)
+pub(crate) use select_forms;
+
 /// F-12a: `Odd::<T>::default()` was the derived `Odd(0)`.
 fn default_odd<T: Val>(what: &str, d: Odd<T>) -> CaseResult {
     let l = (*d).words();
